@@ -168,6 +168,8 @@ def main(tier):
         # layer options that do not interact with the call sequence: sampled over the same runs
         variants += [dict(stack="comp+enc", level=0, nrecip=3, reader=2, seed=seed() + 12, entropy="low"),
                      dict(stack="comp", level=11, nrecip=1, reader=0, seed=seed() + 13, entropy="low"),
+                     dict(stack="raw", level=5, nrecip=1, reader=0, seed=seed() + 15, entropy="struct"),
+                     dict(stack="comp+enc", level=5, nrecip=1, reader=0, seed=seed() + 16, entropy="struct"),
                      dict(stack="enc", level=5, nrecip=2, reader=1, seed=seed() + 14, fsopt=True)]
         if tier == "thorough":
             variants += [dict(stack="comp+enc", level=l, nrecip=2, reader=l % 2, seed=seed() + 20 + l,
